@@ -1200,3 +1200,54 @@ def alarm_filter(stream, case, impl_out, model_out):
             alarm = True
         notes.append("line %d: %s" % (i, ",".join(sorted(diff))))
     return alarm, notes
+
+
+# ------------------------------------------------------------------ map_ over a DYNAMIC list (tsl_map_node.cpp)
+# Plug-in tools/props/c10tsl.py, streams `tslmap*` (harness/drv_tslmap.cpp = hgv_tslmap, lean/Drivers/TslMap.lean,
+# Model/TslMap.lean, Props/C10Tsl.lean), merged by stream-name prefix; everything above is unchanged, `gen_case`,
+# `monitor`, `features`, `nontrivial`, `alarm_filter` keep their behaviour for every other stream (tools/props/c15.py
+# imports them).
+import c10tsl as _ct
+
+LEAN_MODULES = LEAN_MODULES + _ct.LEAN_MODULES
+THEOREMS = THEOREMS + _ct.THEOREMS
+CXX_TARGETS = CXX_TARGETS + _ct.CXX_TARGETS
+RULE = RULE + ". " + _ct.RULE
+TRUSTED = TRUSTED + _ct.TRUSTED
+ASSUMPTIONS = ASSUMPTIONS + _ct.ASSUMPTIONS
+LEVEL_TEXT = LEVEL_TEXT + " " + _ct.LEVEL_TEXT
+LEVEL_NOTE = LEVEL_NOTE + " " + _ct.LEVEL_NOTE
+
+_streams_tsd, _monitor_tsd, _features_tsd, _nontrivial_tsd, _alarm_filter_tsd = streams, monitor, features, nontrivial, alarm_filter
+
+
+def _is_tsl(stream):
+    return stream.startswith("tslmap")
+
+
+def streams(rng, tier, seed):
+    return _streams_tsd(rng, tier, seed) + _ct.streams(rng, tier, seed)
+
+
+def monitor(stream, case, out):
+    return _ct.monitor(stream, case, out) if _is_tsl(stream) else _monitor_tsd(stream, case, out)
+
+
+def features(stream, case, out):
+    return _ct.features(stream, case, out) if _is_tsl(stream) else _features_tsd(stream, case, out)
+
+
+def nontrivial(stream, case, out):
+    return _ct.nontrivial(stream, case, out) if _is_tsl(stream) else _nontrivial_tsd(stream, case, out)
+
+
+def alarm_filter(stream, case, impl_out, model_out):
+    if _is_tsl(stream):
+        return _ct.alarm_filter(stream, case, impl_out, model_out)
+    return _alarm_filter_tsd(stream, case, impl_out, model_out)
+
+
+def valid_case(stream, case, impl_out, model_out):
+    if _is_tsl(stream):
+        return _ct.valid_case(stream, case, impl_out, model_out)
+    return True
